@@ -1,5 +1,6 @@
 import M3d.Lemmas.ConcDcl
 import M3d.Lemmas.ConcPatterns
+import M3d.Lemmas.ConcQuery
 import M3d.Gen.ConcFacts
 /-!
 # C13 — concurrent read-only use is race-free and matches sequential use
@@ -272,6 +273,161 @@ theorem updateAt_racy :
       (run p Config.init sched).mem CELL = 3 ∧ maxHeights (fun t => [5, 3].getD t 0) 2 = 5 :=
   ⟨[0, 1, 0, 1], by decide⟩
 
+/-! ### Immutable query structures: `JoinedCollider`, `profileCollider`, `colorFuncObject`, … -/
+
+/-- **Queries that write only state of their own call and read only that state and the immutable
+structure never race and compute what they compute alone.**  `own t l` says that location `l`
+belongs to (the calls made by) goroutine `t`, `shared l` that `l` is part of the structure;
+no location has two owners and a shared location has none.  Every goroutine runs an arbitrary
+straight-line program of plain reads, plain writes and local computation that writes only
+locations it owns and reads only locations it owns or shared ones (`stepRO`).  Then for every
+initial memory `m0` (the structure as constructed), every schedule and every number of
+goroutines: there is no data race; the structure still holds `m0`; and for every goroutine its
+registers (`viewOf`: program counter, last value read = its answers, …) and the memory it owns
+are exactly those of the execution in which it performs the same number of steps alone
+(`alone sched t`, sequential use). -/
+theorem owned_state_noninterference (own : Tid → Loc → Bool) (shared : Loc → Bool)
+    (hdisj : ∀ t t' l, own t l = true → own t' l = true → t = t')
+    (hsh : ∀ t l, shared l = true → own t l = false)
+    (p : Program) (hp : ∀ t, ∀ s ∈ p t, stepRO own shared t s = true)
+    (m0 : Loc → Val) (sched : Schedule) :
+    let c0 : Config := { Config.init with mem := m0 }
+    let c := run p c0 sched
+    raceFreeFrom p c0 sched = true ∧
+    (∀ l, shared l = true → c.mem l = m0 l) ∧
+    (∀ t, viewOf c t = viewOf (run p c0 (alone sched t)) t ∧
+      ∀ l, own t l = true → c.mem l = (run p c0 (alone sched t)).mem l) := by
+  intro c0 c
+  have I : OwnInv own shared m0 c :=
+    ownInv_run own shared hdisj hsh p hp m0 c0 sched ⟨by simp [c0, Config.init], by simp [c0, Config.init], fun _ _ => rfl⟩
+  refine ⟨List.isEmpty_iff.2 I.norace, I.frozen, fun t => ?_⟩
+  have A := agree_run own shared hdisj hsh p hp t sched c0 c0 (Agree.refl own shared t c0)
+  exact ⟨A.1, fun l hl => A.2 l (Or.inl hl)⟩
+
+/-- The library's staged query (`queryLocalProg`: read the structure, stage the intermediate
+result in a buffer / material allocated by the call, do other work, consume it) respects the
+ownership discipline, for every goroutine. -/
+theorem queryLocal_respects_ownership (f : Val → Val → Val) (xs : Tid → Val) (t : Tid) :
+    ∀ s ∈ queryLocalProg f xs t, stepRO queryOwn queryShared t s = true := by
+  intro s hs
+  simp only [queryLocalProg, queryThread, List.mem_cons, List.mem_nil_iff, or_false] at hs
+  rcases hs with rfl | rfl | rfl | rfl <;> simp [stepRO, queryOwn, queryShared, STRUCT, PRIV]
+
+/-- **Concurrent queries on an immutable structure give the sequential answers.**  Any number of
+goroutines query one structure with data `s`, goroutine `t` with input `xs t` (a ray, a point);
+each stages `f s (xs t)` in state of its own call and consumes it later.  Under every schedule:
+no data race, the structure is unchanged, and every query that has returned returned
+`f s (xs t)` — the answer of sequential use. -/
+theorem query_local_scratch_eq_sequential (f : Val → Val → Val) (xs : Tid → Val) (s : Val) (sched : Schedule) :
+    let p := queryLocalProg f xs
+    let c := run p (structInit s) sched
+    raceFreeFrom p (structInit s) sched = true ∧ c.mem STRUCT = s ∧
+    ∀ t, done p c t = true → (c.thr t).out = f s (xs t) := by
+  intro p c
+  have hdisj : ∀ t t' l, queryOwn t l = true → queryOwn t' l = true → t = t' := by
+    intro t t' l h1 h2
+    simp only [queryOwn, beq_iff_eq, PRIV] at h1 h2
+    subst h1
+    exact Nat.add_left_cancel h2
+  have hsh : ∀ t l, queryShared l = true → queryOwn t l = false := by
+    intro t l h
+    simp only [queryShared, queryOwn, beq_iff_eq, STRUCT, PRIV, beq_eq_false_iff_ne] at h ⊢
+    intro h'
+    exact Nat.ne_of_lt (Nat.add_pos_left (by decide) t) (h.symm.trans h')
+  have H := owned_state_noninterference queryOwn queryShared hdisj hsh p
+    (queryLocal_respects_ownership f xs) (upd Config.init.mem STRUCT s) sched
+  change raceFreeFrom p (structInit s) sched = true ∧
+    (∀ l, queryShared l = true → c.mem l = upd Config.init.mem STRUCT s l) ∧
+    (∀ t, viewOf c t = viewOf (run p (structInit s) (alone sched t)) t ∧
+      ∀ l, queryOwn t l = true → c.mem l = (run p (structInit s) (alone sched t)).mem l) at H
+  obtain ⟨h1, h2, h3⟩ := H
+  refine ⟨h1, ?_, fun t ht => ?_⟩
+  · rw [h2 STRUCT (by simp [queryShared])]
+    simp [upd]
+  · have hv := (h3 t).1
+    rw [alone_eq_replicate] at hv
+    simp only [viewOf, View.mk.injEq] at hv
+    obtain ⟨e1, _, e3, _⟩ := hv
+    have hpc : 4 ≤ (c.thr t).pc := by
+      have : (p t).length ≤ (c.thr t).pc := of_decide_eq_true ht
+      simpa [p, queryLocalProg, queryThread] using this
+    have hsolo : (sched.count t < 4 →
+          ((run p (structInit s) (List.replicate (sched.count t) t)).thr t).pc = sched.count t) ∧
+        (4 ≤ sched.count t →
+          ((run p (structInit s) (List.replicate (sched.count t) t)).thr t).out = f s (xs t)) :=
+      query_solo f xs s t (sched.count t)
+    have hk : 4 ≤ sched.count t := by
+      by_contra hlt
+      have := hsolo.1 (by omega)
+      omega
+    rw [e3]
+    exact hsolo.2 hk
+
+/-- Non-vacuity: three goroutines with different inputs, interleaved step by step; all return,
+each with its own answer. -/
+example :
+    let p := queryLocalProg (fun s x => s + x) (fun t => 10 * (t + 1))
+    let c := run p (structInit 5) [0, 1, 2, 0, 1, 2, 2, 1, 0, 0, 1, 2]
+    ((List.range 3).all fun t => done p c t) = true ∧ (List.range 3).map (fun t => (c.thr t).out) = [15, 25, 35] := by
+  decide
+
+/-- **Staging in a field of the shared structure is not safe**: the same query with the buffer
+kept on the structure (`p.rayBuf`, `c.mat`, a reordered child list) violates the ownership
+discipline, and the *interrupted query* schedule the harness forces — goroutine 0 parked after
+staging, goroutine 1 running a complete query, goroutine 0 resumed — has a data race and gives
+goroutine 0 the answer to goroutine 1's input (25 instead of 15).  Decided by evaluation. -/
+theorem query_field_scratch_racy :
+    let p := queryFieldProg (fun s x => s + x) (fun t => 10 * (t + 1))
+    let c := run p (structInit 5) (interrupted 2)
+    progRO queryOwn queryShared p 2 = false ∧
+    raceFreeFrom p (structInit 5) (interrupted 2) = false ∧
+    ((List.range 2).all fun t => done p c t) = true ∧
+    (c.thr 0).out = 25 ∧ (c.thr 1).out = 25 ∧
+    ((run p (structInit 5) (alone (interrupted 2) 0)).thr 0).out = 15 := by
+  decide
+
+/-! ### `sync.Map` memoisation: `model2d.CacheScalarFunc` -/
+
+/-- **Every caller of the cached function gets `f x`, whatever the schedule.**  Any number of
+goroutines call `cached(x)` for one `x`: `Load`; if present return the stored value; otherwise
+evaluate `f x` themselves and `Store` it (`v = f x + 1`, `0` = absent).  Under every schedule
+the entry is absent or holds `f x`, every caller that has returned returned `f x` — in
+particular a caller that overlaps the first evaluation — and there is no plain access at all
+(so no data race). -/
+theorem cache_memo_returns_fx (v : Val) (hv : v ≠ 0) (sched : Schedule) :
+    let c := run (cacheProg v) Config.init sched
+    (c.mem CACHE = 0 ∨ c.mem CACHE = v) ∧
+    (∀ t, done (cacheProg v) c t = true → (c.thr t).reg = v) ∧
+    raceFree (cacheProg v) sched = true := by
+  intro c
+  have I : CacheInv v c := cacheInv_run v hv _ sched (cacheInv_init v)
+  refine ⟨I.cell, fun t ht => ?_, List.isEmpty_iff.2 I.norace⟩
+  have h4 : (cacheProg v t).length ≤ (c.thr t).pc := of_decide_eq_true ht
+  have := I.pcle t
+  simp only [cacheProg, cacheThread, List.length_cons, List.length_nil] at h4
+  exact I.r4 t (by omega)
+
+/-- Non-vacuity: the second caller arrives while the first is still evaluating `f x`
+(schedule-wise: between its `Load` and its `Store`); both return `f x`. -/
+example :
+    let c := run (cacheProg 8) Config.init [0, 0, 0, 1, 1, 1, 1, 0, 2, 2]
+    ((List.range 3).all fun t => done (cacheProg 8) c t) = true ∧
+      (List.range 3).map (fun t => (c.thr t).reg) = [8, 8, 8] := by
+  decide
+
+/-- **"Claim the entry first" is not safe**: publishing an empty slot with `LoadOrStore` and
+filling it after `f x` returned lets a caller that finds the entry read the slot before it is
+filled: with the interrupted schedule (goroutine 0 parked inside `f`, goroutine 1 complete,
+goroutine 0 resumed) goroutine 1 returns 0 instead of `f x`, and its read races with the
+owner's write.  Decided by evaluation. -/
+theorem cache_claim_first_racy :
+    let p := cacheClaimProg 8
+    let s : Schedule := [0, 0, 0, 0, 1, 1, 1, 0, 0]
+    let c := run p Config.init s
+    raceFree p s = false ∧ ((List.range 2).all fun t => done p c t) = true ∧
+    (c.thr 0).out = 8 ∧ (c.thr 1).out = 0 := by
+  decide
+
 /-! ### Facts: the shape of the current source is the shape the model assumes
 
 `M3d.Gen.ConcFacts` is regenerated from /repo (go/ast) before every build.  The theorems
@@ -350,6 +506,29 @@ theorem facts_updateAt : ConcFacts.updateAt = ["boundsRet", "idx", "readCompareW
 
 /-- `CacheScalarFunc` touches its captured cache only through `sync.Map.Load/Store`. -/
 theorem facts_cacheScalarFunc : ConcFacts.cacheScalarFunc = ["decl:sync.Map", "call:Load", "call:Store"] := by
+  decide
+
+/-- **No read-only query method writes its receiver.**  Over all 370-odd methods named like the
+library's query interfaces (`Collider`, `Solid`, the SDF family, `render3d.Object`, `Material`,
+`AreaLight`, mesh queries) in model2d, model3d, render3d and toolbox3d, the extractor found no
+assignment to memory of the receiver — neither directly, nor through a slice alias of one of its
+fields, nor through another method of the same type.  So the only state a query writes is state
+of its own call: the discipline of `owned_state_noninterference`. -/
+theorem facts_queries_readonly : ConcFacts.queryReceiverWrites = [] := by decide
+
+/-- The query methods the staged-query model stands for are all still found by the extractor
+(so the previous theorem is not vacuous after a refactor). -/
+theorem facts_queries_cover :
+    ConcFacts.querySitesSeen =
+      ["model2d.ColliderSolid.Contains", "model2d.JoinedCollider.CircleCollision",
+       "model3d.ColliderSolid.Contains", "model3d.JoinedCollider.FirstRayCollision",
+       "model3d.JoinedCollider.RayCollisions", "model3d.JoinedCollider.SphereCollision",
+       "model3d.SolidCollider.RayCollisions", "model3d.colliderSDF.SDF", "model3d.meshSDF.SDF",
+       "model3d.profileCollider.FirstRayCollision", "model3d.profileCollider.RayCollisions",
+       "model3d.profileCollider.SphereCollision", "model3d.transformedCollider.RayCollisions",
+       "render3d.ColliderObject.Cast", "render3d.FilteredObject.Cast", "render3d.JoinedObject.Cast",
+       "render3d.PhongMaterial.BSDF", "render3d.colorFuncObject.Cast"] ∧
+    300 ≤ ConcFacts.queryMethodCount := by
   decide
 
 end M3d.C13
